@@ -248,3 +248,72 @@ def run(ctx):
         ok = ok and first_get is not None and (ol[0] != first_get[0] or ol[1] < first_get[1]) and ol[0] in sk.cfg.dominators().get(first_get[0], {ol[0]})
     ctx.ob("R09.2", "skip_false_if_block|comment-saving-paired", ok, sk.loc(offs[0]) if offs else sk.loc(),
            "_save_comments is cleared before scanning and set again on every exit")
+    manifest_keys(ctx)
+
+def manifest_keys(ctx):
+    """R09.3: #ifdef / defined() / expansion look a macro up by its bare name.  A freshly made CPPManifest parses that
+    name out of its definition text (`SEL(x)` -> `SEL`); it must be filed under that parsed name, wherever it is made
+    (#define and the -D options of both tools)."""
+    db = ctx.db
+    ctx.rule("R09.3", "a newly constructed CPPManifest is registered in _manifests under its own parsed name (<manifest>->_name), at every site that creates one (#define, -D in interrogate and parse_file)")
+    n = 0
+    for f in db.functions:
+        if "/cppparser/" not in f.file and "/interrogate/" not in f.file:
+            continue
+        fresh = {}
+        for st in f.walk():
+            if st.get("k") == "decls":
+                for d in st["d"]:
+                    if any(x.get("k") == "new" and x.get("ty") == "CPPManifest" for x in walk(d.get("init") or {})):
+                        fresh[d["d"]] = d["n"]
+            t = assigned_target(st)
+            if t and any(x.get("k") == "new" and x.get("ty") == "CPPManifest" for x in walk(t[1])):
+                r = local_ref(t[0])
+                if r is not None:
+                    fresh[r["d"]] = r["n"]
+        if not fresh:
+            continue
+        for c in f.walk():
+            key = val = None
+            if c.get("k") == "bin" and c.get("op") == "=":
+                l = strip_casts(peel(c["x"]))
+                if l is not None and l.get("k") == "call" and callee_short(l) == "operator[]" and (field_of(l["a"][0]) or "").endswith("CPPPreprocessor::_manifests"):
+                    key, val = l["a"][1], c["y"]
+            elif c.get("k") == "call" and callee_short(c) == "operator=" and c.get("opc") and len(c.get("a", [])) == 2:
+                l = strip_casts(peel(c["a"][0]))
+                if l is not None and l.get("k") == "call" and callee_short(l) == "operator[]" and (field_of(l["a"][0]) or "").endswith("CPPPreprocessor::_manifests"):
+                    key, val = l["a"][1], c["a"][1]
+            elif c.get("k") == "call" and callee_short(c) in ("insert", "emplace") and (field_of(c.get("this")) or "").endswith("CPPPreprocessor::_manifests"):
+                parts = [x for x in walk(c) if x.get("k") == "ctor" and "pair" in (x.get("f") or "")]
+                if parts and len(parts[0].get("a", [])) >= 2:
+                    key, val = parts[0]["a"][0], parts[0]["a"][1]
+                elif len(c.get("a", [])) == 2:
+                    key, val = c["a"][0], c["a"][1]
+            if key is None:
+                continue
+            v = local_ref(strip_casts(peel(val)))
+            if v is None or v.get("d") not in fresh:
+                continue
+            n += 1
+            k = strip_casts(peel(key))
+            while k is not None and k.get("k") == "ctor" and len([a for a in k.get("a", []) if a.get("k") != "defarg"]) == 1:
+                k = strip_casts(peel(k["a"][0]))
+            hops = 0
+            while k is not None and k.get("k") == "ref" and k.get("dk") == "local" and hops < 4:
+                init = None
+                for st2 in f.walk():
+                    if st2.get("k") == "decls":
+                        for d2 in st2["d"]:
+                            if d2.get("d") == k.get("d") and d2.get("init") is not None:
+                                init = d2["init"]
+                if init is None:
+                    break
+                k = strip_casts(peel(init))
+                while k is not None and k.get("k") == "ctor" and len([a for a in k.get("a", []) if a.get("k") != "defarg"]) == 1:
+                    k = strip_casts(peel(k["a"][0]))
+                hops += 1
+            ok = k is not None and k.get("k") == "mem" and k.get("n", "").endswith("CPPManifest::_name") and (local_ref(k.get("b")) or {}).get("d") == v["d"]
+            ctx.ob("R09.3", "%s|registers-under-own-name" % (f.name if "::" in f.name else f.file.split("/")[-1] + "::" + f.name), ok, f.loc(c),
+                   "%s is filed under `%s`%s" % (v["n"], show(key)[:40], "" if ok else ": not the name the manifest parsed for itself"))
+    ctx.floor("R09.3", "sites registering a new manifest", n, 3)
+
